@@ -196,6 +196,12 @@ func (db *DB) FindInBatches(dest interface{}, batchSize int, fc func(tx *DB, bat
 
 			// reset to offset to 0 in next batch
 			tx = tx.Offset(-1).Session(&Session{})
+
+			// LIMIT 0 selects no rows: run that query once as Find does, no batch is handed to fc
+			if limit.Limit != nil && totalSize == 0 {
+				tx.AddError(queryDB.Find(dest).Error)
+				return tx
+			}
 		}
 	}
 
